@@ -153,8 +153,33 @@ func (sc *vSched) exec(st vStep) error {
 		return sc.respondPoll(st, http.StatusOK, b)
 	case "RelayRejected":
 		return sc.await(st, "rs.exit.rejected", sc.wait, evExit("rejected", "badurl"))
-	case "RelayOK", "HandlerStart":
+	case "RelayOK":
 		return nil // no observable event of its own
+	case "HandlerStart":
+		// release the handler goroutine held at dh.start.  If the behaviour
+		// lets this handler go on to dial, wait for the dial, so that the
+		// handler's decision is made before any later step of the main loop.
+		s := argInt(st, 0)
+		if err := sc.await(st, fmt.Sprintf("dh.start.%d", s), sc.wait, evIsS("dh.start", s)); err != nil {
+			return err
+		}
+		r.mu.Lock()
+		hg := r.hGateGo[s]
+		delete(r.hGateGo, s)
+		r.mu.Unlock()
+		if hg == nil {
+			return sc.diverged(st, "handler is not at its gate")
+		}
+		close(hg)
+		for _, later := range r.plan.Steps[sc.step+1:] {
+			if later.Act == "HandlerDial" && argInt(later, 0) == s {
+				if !r.waitEvent("dh.dial", 1, sc.wait, evIsS("dh.dial", s)) {
+					return sc.diverged(st, "handler did not reach the dial")
+				}
+				break
+			}
+		}
+		return nil
 	case "PCFail":
 		return sc.await(st, "rs.exit.pcfail", sc.wait, evExit("pcfail"))
 	case "PCOk":
@@ -259,6 +284,7 @@ func (sc *vSched) exec(st vStep) error {
 func TestVerifC16Replay(t *testing.T) {
 	r := vNewRig(t)
 	defer r.finish()
+	r.hGate = true
 	r.startProxy()
 	sc := &vSched{r: r, wait: time.Duration(r.plan.WaitMS) * time.Millisecond, count: map[string]int{}, rreq: map[int]*vRelayReq{}}
 	var err error
